@@ -418,5 +418,37 @@ class NextIterationKeepsStoredDocument(Target):
                 ('stored-document-keeps-its-bindings', 'bindings' in st.doc)]
 
 
-TARGETS = [NextIterationKeepsStoredDocument(), DiscoverPlaceholders(), ComputeDoWhileState(), MapPlaceholder(), LoopedReferencePaths(), RewriteComponents(), InstantiateDoWhile()]
+class GetAllLoopedIds(Target):
+    """The helper every DoWhile computation starts from: the ids of ALL loop instances -- names <iteration>#<name> for
+    ANY iteration number (symbolic, unbounded) -- and nothing else."""
+    prop = 'C05'
+    name = 'WorkflowGraph._get_all_looped_ids'
+    file = G
+    qualname = 'WorkflowGraph._get_all_looped_ids'
+    inline_class = {'this': (G, 'WorkflowGraph')}
+    assumptions = ["<= 2 loop instances (iteration numbers unbounded symbolic integers) next to an ordinary component"]
+    trusted = ["FlowIRConcrete.get_component_identifiers returns the identifiers of the components"]
+
+    def setup(self, c):
+        k = 1 + c.choice('instances', 2)
+        its = iterations(c, k)
+        ids = [(1, instance_name(c, i, 'comp')) for i in its]
+        plain = (0, 'source')
+        cached = c.one_of('use_cached_ids', [False, True])
+        conc = Obj('concrete', get_component_identifiers=Extern('get_component_identifiers', lambda c, flag=None: [plain] + list(ids)))
+        this = Obj('graph', _concrete=conc, log=NULLLOG)
+        return State(args=[this], kwargs={'use_cached_ids': cached}, ids=ids, plain=plain, this=this)
+
+    def ensures(self, c, st, out):
+        if out.kind == 'raise':
+            return [('no-exception', False)]
+        got = list(out.value)
+        return [('every-loop-instance-is-listed-whatever-its-iteration-number', all(any(x is y for y in got) for x in st.ids)),
+                ('ordinary-components-are-not-listed', not any(x is st.plain for x in got))]
+
+    def cross_compare(self, *a):
+        return []
+
+
+TARGETS = [GetAllLoopedIds(), NextIterationKeepsStoredDocument(), DiscoverPlaceholders(), ComputeDoWhileState(), MapPlaceholder(), LoopedReferencePaths(), RewriteComponents(), InstantiateDoWhile()]
 LEMMAS = []
